@@ -24,7 +24,7 @@ func keyIndexFuncs(p *Program) []*ssa.Function {
 				_ = idx
 				// key of a session?
 				if ld, ok := deref(x); ok {
-					if _, fv, fa := fieldOfAddr(ld); fa != nil && isNamed(fa.X.Type(), triePath, "querySession") && isStringType(fv.Type()) {
+					if _, fv, fa := fieldOfAddr(ld); fa != nil && isSessionType(fa.X.Type()) && isStringType(fv.Type()) {
 						found = true
 					}
 				}
@@ -180,18 +180,25 @@ func checkC10(p *Program, r *Report) {
 				return
 			}
 			_, fv, fa := fieldOfAddr(st.Addr)
-			if fa == nil || !isNamed(fa.X.Type(), triePath, "querySession") {
+			if fa == nil || !isSessionType(fa.X.Type()) {
 				return
 			}
 			if _, isAlloc := fa.X.(*ssa.Alloc); !isAlloc {
 				return
 			}
-			if fv.Name() == "key" || fv.Name() == "keyBitLen" {
+			role := ""
+			switch fv.Name() {
+			case curSess.key:
+				role = "key"
+			case curSess.keyBitLen:
+				role = "keyBitLen"
+			}
+			if role != "" {
 				if byBase[fa.X] == nil {
 					byBase[fa.X] = map[string]string{}
 					pos[fa.X] = st.Pos()
 				}
-				byBase[fa.X][fv.Name()] = e.eval(st.Val).String()
+				byBase[fa.X][role] = e.eval(st.Val).String()
 			}
 		})
 		for base, m := range byBase {
@@ -412,7 +419,7 @@ func stepAdvances(f *ssa.Function, v ssa.Value) []*ssa.BinOp {
 				return false
 			}
 			_, fv, fa := fieldOfAddr(ld)
-			return fa != nil && isNamed(fa.X.Type(), triePath, "querySession") && isIntType(fv.Type()) && strings.Contains(strings.ToLower(fv.Name()), "len")
+			return fa != nil && isSessionType(fa.X.Type()) && isIntType(fv.Type()) && fv.Name() == curSess.stepLen
 		}
 		var cur ssa.Value
 		if isLenField(b.Y) {
